@@ -4,7 +4,7 @@
     Model/Date.v, Model/Time.v, Model/DateTime.v, Model/C03.v (trapping arithmetic: [Val]/[Panic]). *)
 From Coq Require Import ZArith List Bool.
 From V Require Import Base.Int Base.IO Spec.Gregorian Model.TimeDelta Model.DateTime Model.C03 Proofs.C06 Proofs.C03.
-From V Require Model.Date Model.Time Proofs.C03Headroom Proofs.C03Zone.
+From V Require Model.Date Model.Time Proofs.C03Headroom Proofs.C03Zone Proofs.C03Nth.
 Open Scope Z_scope.
 
 (** Vocabulary (Proofs/C03.v, Proofs/C06.v, Spec/Gregorian.v):
@@ -353,3 +353,15 @@ Example C03_zone_days_headroom_examples :
   dz_checked_add_days (mk_dtz NDT_MAX 7200) 1 = Val None /\ dz_checked_sub_days (mk_dtz NDT_MIN (-7200)) 1 = Val None.
 Proof. exact V.Proofs.C03Zone.zone_days_headroom_examples. Qed.
 Print Assumptions C03_zone_days_headroom_examples.
+
+(* the provided adaptors nth / nth_back (ops it.dnth / it.wnth) are repeated next / next_back *)
+Theorem C03_nth_is_repeated_next : forall step k fuel v vk,
+  Proofs.C03Nth.drive_some step k v = Some vk -> (k < fuel)%nat ->
+  it_nth step fuel (Z.of_nat k) v = step vk.
+Proof. exact Proofs.C03Nth.it_nth_jump. Qed.
+Print Assumptions C03_nth_is_repeated_next.
+Theorem C03_nth_past_the_end : forall step j k fuel v vj v',
+  Proofs.C03Nth.drive_some step j v = Some vj -> step vj = Val (None, v') -> (j <= k)%nat -> (j < fuel)%nat ->
+  it_nth step fuel (Z.of_nat k) v = Val (None, v').
+Proof. exact Proofs.C03Nth.it_nth_past_end. Qed.
+Print Assumptions C03_nth_past_the_end.
